@@ -68,29 +68,30 @@ var pionMethods = map[string]string{
 
 // functions bracketed by Enter/Exit probes
 var probeFuncs = map[string]bool{
-	"rtpconn.(*rtpDownTrack).Write":       true,
-	"rtpconn.(*rtpDownTrack).write":       true,
-	"rtpconn.gotNACK":                     true,
-	"rtpconn.sendSequence":                true,
-	"rtpconn.handleClientMessage":         true,
-	"rtpconn.handleAction":                true,
-	"rtpconn.readLoop":                    true,
-	"rtpconn.rtpWriterLoop":               true,
-	"rtpconn.nackWriter":                  true,
-	"packetcache.(*Cache).Store":          true,
-	"rtpconn.sendUpRTCP":                  true,
-	"rtpconn.handleReport":                true,
-	"rtpconn.rtcpDownListener":            true,
-	"rtpconn.(*rtpDownTrack).adjustLayer": true,
+	"rtpconn.(*rtpDownTrack).Write":        true,
+	"rtpconn.(*rtpDownTrack).write":        true,
+	"rtpconn.gotNACK":                      true,
+	"rtpconn.sendSequence":                 true,
+	"rtpconn.handleClientMessage":          true,
+	"rtpconn.handleAction":                 true,
+	"rtpconn.readLoop":                     true,
+	"rtpconn.rtpWriterLoop":                true,
+	"rtpconn.nackWriter":                   true,
+	"packetcache.(*Cache).Store":           true,
+	"rtpconn.sendUpRTCP":                   true,
+	"rtpconn.handleReport":                 true,
+	"rtpconn.rtcpDownListener":             true,
+	"rtpconn.(*rtpDownTrack).adjustLayer":  true,
 	"rtpconn.(*rtpDownTrack).getLayerInfo": true, "rtpconn.(*rtpDownTrack).setLayerInfo": true,
-	"rtpconn.(*rtpDownTrack).updateRate":  true,
-	"diskwriter.(*diskTrack).Write":       true,
-	"diskwriter.fetch":                    true,
-	"group.AddClient":                     true,
-	"group.DelClient":                     true,
-	"token.(*state).rewrite":              true,
-	"token.(*state).add":                  true,
-	"group.rewriteDescriptionFile":        true,
+	"rtpconn.(*rtpDownTrack).updateRate": true,
+	"diskwriter.(*diskTrack).Write":      true,
+	"diskwriter.fetch":                   true,
+	"diskwriter.(*diskTrack).writeRTP":   true,
+	"group.AddClient":                    true,
+	"group.DelClient":                    true,
+	"token.(*state).rewrite":             true,
+	"token.(*state).add":                 true,
+	"group.rewriteDescriptionFile":       true,
 }
 
 // designated fields for the race detector: "pkg.Type.field"
